@@ -233,6 +233,7 @@ class StepResult:
         self.successors = {}   # coarse state -> (choices, calls)
         self.known = 0         # occurrences of the known id-crossing defect (successor repaired)
         self.problems = []     # (property, key, message, choices)
+        self.calls = {}        # tuple(choices) -> resolved random calls (for standalone replay)
         self.leaves = 0
         self.cut = 0
         self.returned = 0
@@ -292,6 +293,14 @@ def explore_step(state, initial, shapes0, names, target, d, search_limit=25, con
     def on_leaf(leaf):
         res.leaves += 1
         choices = leaf.choices
+        n_before = len(res.problems)
+        try:
+            _on_leaf(leaf, choices)
+        finally:
+            if len(res.problems) > n_before and len(res.calls) < 20:
+                res.calls[tuple(choices)] = leaf.run.resolved_calls()
+
+    def _on_leaf(leaf, choices):
         if "drawset" in holder:
             got, want = holder["drawset"]
             res.problems.append(("C11", "C11:drawset-out-of-sync", f"drawable edge set {got} != working graph edges "
@@ -363,6 +372,17 @@ def explore_step(state, initial, shapes0, names, target, d, search_limit=25, con
     res.points = st.points
     res.rechecked = st.rechecked
     return res
+
+
+def standalone_snippet(state, names, target, conv_limit, search_limit, calls):
+    """Plain program replaying one execution of rewire() with a list-driven random module (no explorer)."""
+    return ("# run with /venv/bin/python from /verif\nimport sys; sys.path[:0] = ['/repo', '/verif']\n"
+            "CALLS = %r\n" % (calls,) + engine.STANDALONE_STUB +
+            "from mc import mcmc\nstate = %r\nnames = %r\ntarget = %r\n" % (state, names, target) +
+            "net, out = mcmc.run_rewire(state, names, target, %r, %r, mcmc.Registry())\n" % (conv_limit, search_limit) +
+            "post = mcmc.coarse(out)\nprint('edges after:', post[1])\n"
+            "for p in mcmc.check_state_invariants(state, mcmc.motif_shapes(state), post, names, target, pre=state):\n"
+            "    print('VIOLATED', p)\n")
 
 
 def closure(initial, names, target, d, search_limit=25, cap=20000, on_step=None):
